@@ -115,6 +115,21 @@ pub fn gen_c02(rng: &mut Rng, n: usize, out: &mut Vec<String>) {
             _ => ops_parse::gen_valid_text(rng, 10, true),
         };
         out.push(format!("NEW {}", hex_str(&text)));
+        if i % 4 == 2 {
+            // the diagnostics as the broker publishes them (ranges converted, messages formatted)
+            out.push(format!("PUB {}", hex_str(&text)));
+        }
+        if i % 10 == 9 {
+            // prose in front of a program (a comment that lost its `//`): long runs of skipped text with multi-byte
+            // characters at every offset
+            const WORDS: &[&str] = &["Dieses", "Programm", "berechnet", "eine", "Größe", "des", "größten", "Feldes", "für", "naïve", "Übung",
+                "über", "é", "€uro", "señor", "x", "ab", "proc", "zähle", "Straße", "日本", "😀", "ok"];
+            let pad = "a".repeat(rng.below(5));
+            let line = (0..rng.range(5, 14)).map(|_| *rng.pick(WORDS)).collect::<Vec<_>>().join(" ");
+            let t = format!("{}{}\nproc main() {{\n  {}\n}}\n", pad, line, if rng.chance(1, 2) { "x := 1;" } else { "" });
+            out.push(format!("NEW {}", hex_str(&t)));
+            out.push(format!("PUB {}", hex_str(&t)));
+        }
         if i % 16 == 3 {
             // every request handler on generated programs (valid, and mutated into broken ones), at identifier
             // and non-identifier positions: a panic in a handler kills the server
